@@ -1,8 +1,11 @@
 """C08 - Goal-region membership is decided correctly (GoalRegion.is_reached, PlanningProblem.goal_reached)."""
+import copy
 import math
+import pickle
 from fractions import Fraction
 
 import numpy as np
+from hypothesis import strategies as st
 
 from commonroad.common.util import AngleInterval, Interval
 from commonroad.geometry.shape import ShapeGroup
@@ -142,13 +145,13 @@ def exactly_on_boundary(g, p):
     return False
 
 
-def tri_position(g, p):
+def tri_position(g, p, exact_ok=True):
     """True / False / None (band) and a class label."""
     pf = [float(p[0]), float(p[1])]
     inside, d = geom.geo_contains_point(g, pf)
     scale = max(geo_extent(g), abs(pf[0]), abs(pf[1]))
     if d <= BAND * (1 + scale):
-        if exactly_on_boundary(g, p):
+        if exact_ok and exactly_on_boundary(g, p):
             return True, "pos-exact-boundary"
         return None, "pos-band"
     if d <= 1e-3 * (1 + geom.geo_size(g)):
@@ -205,7 +208,7 @@ def pm_heading(vx, vy):
     return math.atan2(vy, vx)
 
 
-def evaluate(goal, geos, q):
+def evaluate(goal, geos, q, inexact=False):
     """Three-valued verdict of the region plus, per goal state, {attr: True/False/None}, its verdict, and whether its
     orientation constraint is met only after wrapping; labels for the class histogram."""
     per_goal = []
@@ -215,7 +218,7 @@ def evaluate(goal, geos, q):
         res = {"time": tri_interval(gs["t"], q["t"])}
         wrap = False
         if gs["pos"] is not None:
-            res["pos"], lab = tri_position(g, q["pos"])
+            res["pos"], lab = tri_position(g, q["pos"], exact_ok=not inexact)
             labels.append(lab)
         if gs["ori"] is not None:
             if is_pm(q):
@@ -225,7 +228,7 @@ def evaluate(goal, geos, q):
                 else:
                     res["ori"], lab = tri_orientation(gs["ori"], h, exact_ok=False)
             else:
-                res["ori"], lab = tri_orientation(gs["ori"], q["ori"])
+                res["ori"], lab = tri_orientation(gs["ori"], q["ori"], exact_ok=not inexact)
             wrap = lab == "ori-in-after-wrap"
             labels.append(lab)
         if gs["vel"] is not None:
@@ -298,6 +301,26 @@ def check_case(r, ctx):
                     ctx.discard("lanelet-ring-not-simple")
     geos = [goal_geo(gs["pos"]) if gs["pos"] is not None else None for gs in goal]
     region = build_region(goal)
+    if r.get("route") == "deepcopy":       # the goal region reaches the check as a copy (planning problems are copied)
+        region = copy.deepcopy(region)
+    elif r.get("route") == "pickle":
+        region = pickle.loads(pickle.dumps(region))
+    moved_back = False
+    if r.get("route") == "moved-and-back" and not any(gs["pos"] is not None and gs["pos"]["k"] == "lanelets"
+                                                      for gs in goal):
+        # the region has answered a query, is moved by a rigid motion and moved back by the inverse motion: it is the
+        # region it was, up to rounding (exact boundary cases become don't-cares)
+        t, a = [3.0, -2.0], 0.7
+        try:
+            region.is_reached(build_query(queries[0], use_np))
+        except Exception:
+            pass
+        region.translate_rotate(np.array(t), a)
+        back = geom.rot([-t[0], -t[1]], a)
+        region.translate_rotate(np.array(back), -a)
+        moved_back = True
+    if r.get("route"):
+        ctx.label("region-" + r["route"])
     if r.get("stream_exhausted"):
         ctx.label("generator-stream-exhausted")
     ctx.label("goal-states-%d" % len(goal))
@@ -316,7 +339,7 @@ def check_case(r, ctx):
     expected = []
     any_nontrivial = False
     for i, q in enumerate(queries):
-        verdict, per_goal, verdicts, wrapped, labels = evaluate(goal, geos, q)
+        verdict, per_goal, verdicts, wrapped, labels = evaluate(goal, geos, q, inexact=moved_back)
         expected.append(verdict)
         suffix, nontrivial, labs = classify(verdict, per_goal, verdicts, wrapped)
         any_nontrivial = any_nontrivial or nontrivial
@@ -401,7 +424,8 @@ OPTS = {
 
 
 def strategy(name):
-    return lambda tier: gg.case_strategy(OPTS[name])
+    return lambda tier: st.tuples(gg.case_strategy(OPTS[name]), st.sampled_from([None, None, None, "deepcopy", "pickle", "moved-and-back"])
+                                  ).map(lambda t: dict(t[0], route=t[1]))
 
 
 NT = ("non-trivial = some goal state with >= 2 constrained attributes (time included) fails in exactly one attribute and "
